@@ -1222,6 +1222,45 @@ func init() {
 			setRes(st, in, StringV{Sym: true, Arr: ACopy(AConst(8, 0), Const(64, 0), s.Arr, off, n), Len: n, Max: s.Max, U: s.U})
 			return true
 		},
+		"strings.EqualFold": func(ex *Exec, st *State, args []Value, in *ssa.Call, pos token.Pos) bool {
+			a, b := args[0].(StringV), args[1].(StringV)
+			if !a.Sym && !b.Sym {
+				setRes(st, in, BoolC(strings.EqualFold(a.S, b.S)))
+				return true
+			}
+			if b.Sym {
+				a, b = b, a
+			}
+			if b.Sym {
+				panic("strings.EqualFold of two symbolic strings")
+			}
+			for i := 0; i < len(b.S); i++ {
+				if b.S[i] >= 0x80 || b.S[i] == 'k' || b.S[i] == 'K' || b.S[i] == 's' || b.S[i] == 'S' {
+					// non-ASCII literal, or letters with non-ASCII case variants (Kelvin sign, long s): not modelled
+					st.imprecise = true
+					setRes(st, in, ex.freshVar("equalfold", BoolSort))
+					return true
+				}
+			}
+			c := Eq(a.Len, Const(64, uint64(len(b.S))))
+			for i := 0; i < len(b.S) && i < a.Max; i++ {
+				x := Select(a.Arr, Const(64, uint64(i)))
+				lo := b.S[i]
+				if lo >= 'A' && lo <= 'Z' {
+					lo += 32
+				}
+				if lo >= 'a' && lo <= 'z' {
+					c = And(c, Or(Eq(x, Const(8, uint64(lo))), Eq(x, Const(8, uint64(lo-32)))))
+				} else {
+					c = And(c, Eq(x, Const(8, uint64(lo))))
+				}
+			}
+			if len(b.S) > a.Max {
+				c = False
+			}
+			setRes(st, in, c)
+			return true
+		},
 		"strings.HasPrefix": func(ex *Exec, st *State, args []Value, in *ssa.Call, pos token.Pos) bool {
 			s, p := args[0].(StringV), args[1].(StringV)
 			if !s.Sym && !p.Sym {
@@ -1388,15 +1427,24 @@ func init() {
 				setRes(st, in, BoolC(strings.Contains(a.S, b.S)))
 				return true
 			}
-			if a.Sym && !b.Sym && len(b.S) == 1 {
-				// a bounded symbolic string contains a given byte
+			if a.Sym && !b.Sym {
+				// a bounded symbolic string contains a given literal
+				k := len(b.S)
 				c := False
-				for i := 0; i < a.Max; i++ {
-					c = Or(c, And(Ult(Const(64, uint64(i)), a.Len), Eq(Select(a.Arr, Const(64, uint64(i))), Const(8, uint64(b.S[0])))))
+				for i := 0; i+k <= a.Max; i++ {
+					m := Ule(Const(64, uint64(i+k)), a.Len)
+					for j := 0; j < k; j++ {
+						m = And(m, Eq(Select(a.Arr, Const(64, uint64(i+j))), Const(8, uint64(b.S[j]))))
+					}
+					c = Or(c, m)
+				}
+				if k == 0 {
+					c = True
 				}
 				setRes(st, in, c)
 				return true
 			}
+			st.imprecise = true // a symbolic needle: not modelled
 			setRes(st, in, ex.freshVar("contains", BoolSort))
 			return true
 		},
